@@ -75,6 +75,9 @@ def c16_case(draw):
         stmts.insert(draw(st.integers(0, 1)), {"k": "define", "n": "dm", "v": draw(N.num_literal())})
         for ln in lines[: 1 + len(lines) // 2]:
             ln["params"] = ln["params"] + [{"t": "word", "v": "dm"}]
+    if draw(st.sampled_from((False, False, True))):
+        # the file-wide PHOTOS switch says nothing about single rows
+        stmts.insert(draw(st.integers(0, len(stmts))), {"k": "photos", "yes": draw(st.sampled_from((True, True, False)))})
     return {"stmts": stmts, "layout": [], "crlf": False, "end": False,
             "pdg_name": pdg_name, "opts": opts, "more_opts": more}
 
